@@ -164,6 +164,34 @@ def plan_c03(ctx):
         rng.shuffle(body)
         add(ctx, [{"id": "C03-c-%d" % i, "kind": "program", "mode": "query", "qvars": list(range(1, nq + 1)),
                    "body": [["fresh", hidden + [20, 21], body]]}])
+    # disequalities with SEVERAL pairs whose variables are partly in the answer and partly hidden: such a
+    # constraint restricts nothing that can be seen (the hidden variable can always differ) and must not be reported
+    for i in range(T(ctx, 200, 4000)):
+        nq = rng.randint(1, 2)
+        qs = list(range(1, nq + 1))
+        hidden = [10, 11]
+        k = rng.randint(2, 3)
+        pool = qs + hidden
+        lhs = [["var", rng.choice(pool)] for _ in range(k)]
+        if not any(x[1] in hidden for x in lhs):
+            lhs[rng.randrange(k)] = ["var", rng.choice(hidden)]
+        if not any(x[1] in qs for x in lhs):
+            lhs[rng.randrange(k)] = ["var", rng.choice(qs)]
+        rhs = [rng.choice([["num", rng.randint(1, 3)], ["num", rng.randint(1, 3)], ["var", rng.choice(pool)]]) for _ in range(k)]
+        wrap = rng.choice(["list", "list", "cmp"])
+        mk = (lambda xs: ["list", xs]) if wrap == "list" or k != 2 else (lambda xs: ["cmp", "Pair", xs])
+        body = [["neq", mk(lhs), mk(rhs)]]
+        for _ in range(rng.randint(0, 2)):
+            r = rng.random()
+            if r < 0.4:
+                body.append(["eq", ["var", rng.choice(qs)], rng.choice([["num", rng.randint(1, 3)], ["list", [["var", rng.choice(pool)]]]])])
+            elif r < 0.7:
+                body.append(["neq", ["var", rng.choice(qs)], ["num", rng.randint(1, 3)]])
+            else:
+                body.append(["eq", ["var", rng.choice(hidden)], ["num", rng.randint(1, 3)]])
+        rng.shuffle(body)
+        add(ctx, [{"id": "C03-h-%d" % i, "kind": "program", "mode": "query", "qvars": qs,
+                   "body": [["fresh", hidden, body]]}])
     with_engine_records(ctx, every=T(ctx, 2, 8))
 
 
@@ -175,6 +203,17 @@ def plan_c22(ctx):
         nv = rng.randint(1, 4)
         add(ctx, [{"id": "C22-r-s%d" % i, "kind": "store", "vars": list(range(1, nv + 1)), "k": 0,
                    "ops": gen.store_ops(rng, nv, rng.randint(2, 7), rng.randint(1, 3), p_neq=0.6)}])
+    # one unification makes stored disequalities subsume / duplicate each other in the middle of a pass
+    # of run_constraints, under every forced order of that pass: a constraint that has already left the
+    # store when its turn comes must not be reported as taken a second time
+    add(ctx, sched_sweep(ctx, T(ctx, 60, 1200), "sw"))
+    for i in range(T(ctx, 120, 2400)):
+        goals, nv = gen.collapse_neq_program(rng)
+        vs = list(range(1, nv + 1))
+        add(ctx, [{"id": "C22-cn-s%d" % i, "kind": "store", "vars": vs, "k": 0, "ops": goals}])
+        for k in (0, 1, 2):
+            add(ctx, [{"id": "C22-cn-q%d-k%d" % (i, k), "kind": "program", "mode": "query", "qvars": vs, "body": goals,
+                       "sched": k, "after": 1}])
     # CLP(FD) and CLP(Z) programs: constraints that are not disequalities enter and leave the store on
     # other paths (labelling, resolution, the store replacement at reification)
     for c in fd_random(ctx, T(ctx, 150, 3000), "f"):
@@ -368,6 +407,12 @@ def plan_c06(ctx):
         # the same program three ways: as written, inside dfs { } (cond for conde), raw Conj nesting
         rng.setstate(st)
         body_d = gen.search_program(rng, nq, rng.randint(2, 6), dfs=True)
+        if i % 3 == 0:
+            # literal `true` goals between the others (constant folding in the conjunction constructors)
+            for _ in range(rng.randint(1, 2)):
+                k = rng.randint(0, len(body))
+                body = body[:k] + [["succeed"]] + body[k:]
+                body_d = body_d[:k] + [["succeed"]] + body_d[k:]
         g = "C06-g%d" % i
         add(ctx, [query(ctx, g + "-a", nq, body, group=g),
                   query(ctx, g + "-b", nq, [["dfs", [body_d]]], group=g),
@@ -379,6 +424,11 @@ def plan_c06(ctx):
         prod = ["loop", [[["conde", [[["eq", ["var", 1], ["num", j]]] for j in range(k)]]]]]
         pre = gen.search_program(rng, nq, rng.randint(0, 2), lib=False)
         add(ctx, [query(ctx, "C06-inf-%d" % i, nq, pre + [prod], take=rng.randint(3, 12), fuel=14)])
+        if i % 2 == 0:
+            # `true` in front of the goals of a loop / onceo body
+            g2 = rng.choice([["loop", [[["succeed"], ["conde", [[["eq", ["var", 1], ["num", j]]] for j in range(k)]]]]],
+                             ["onceo", [[["succeed"], ["conde", [[["eq", ["var", 1], ["num", j]]] for j in range(k)]]]]]])
+            add(ctx, [query(ctx, "C06-inft-%d" % i, nq, pre + [g2], take=rng.randint(3, 8), fuel=14)])
         add(ctx, [query(ctx, "C06-infm-%d" % i, 2, [["call", "member", [["num", 1], ["var", 1]]],
                                                     ["call", "append", [["var", 2], ["list", [["num", 2]]], ["var", 1]]]][:rng.randint(1, 2)],
                         take=rng.randint(2, 5), fuel=9)])
@@ -410,6 +460,14 @@ def plan_c08(ctx):
                 head = [["conj", head]]
             rest = gen.search_program(rng, nq, rng.randint(0, 2), lib=True)
             cls.append(head + rest)
+        if op != "onceo" and rng.random() < 0.3:
+            # nested committed choice: the last clause is one inner conda / condu / onceo goal
+            iop = rng.choice(["conda", "condu", "onceo"])
+            ihead = gen.search_program(rng, nq, rng.randint(1, 2), lib=True)
+            if len(ihead) != 1:
+                ihead = [["conj", ihead]]
+            irest = [] if iop == "onceo" else gen.search_program(rng, nq, rng.randint(0, 2), lib=True)
+            cls.append([[iop, [ihead + irest]]])
         pre = gen.search_program(rng, nq, rng.randint(0, 2), lib=True)
         post = gen.search_program(rng, nq, rng.randint(0, 1), lib=False)
         add(ctx, [query(ctx, "C08-r-%d" % i, nq, pre + [[op, cls]] + post)])
@@ -760,8 +818,20 @@ def plan_c09(ctx):
     R = T(ctx, 4, 12)
     for i in range(T(ctx, 150, 2000)):
         nq = rng.randint(1, 3)
-        if rng.random() < 0.5:
+        r = rng.random()
+        if r < 0.4:
             body = gen.flat_tree_program(rng, nq, rng.randint(3, 7), 2, p_neq=0.7)
+        elif r < 0.6:
+            # a disequality whose pairs share a variable, decided later (a result must not depend on the
+            # iteration order of the constraint's own map)
+            nq = 3
+            x, y, z = ["var", 1], ["var", 2], ["var", 3]
+            n = lambda: ["num", rng.randint(1, 2)]
+            body = [["neq", ["list", [x, y]], rng.choice([["list", [z, z]], ["list", [z, ["list", [z]]]]])],
+                    ["eq", x, n()], ["eq", y, rng.choice([n(), ["list", [n()]]])]]
+            if rng.random() < 0.5:
+                body.append(["eq", z, n()])
+            rng.shuffle(body)
         else:
             body = gen.search_program(rng, nq, rng.randint(2, 6))
         g = "C09-det-%d" % i
